@@ -234,4 +234,23 @@ Proof.
       destruct (seqb lf (first_field cls)); [destruct (link_exists links cls a b) | destruct (link_exists links cls b a)]; eexists; reflexivity. }
     destruct Hstep as [l1 ->]. apply IH. intros a' lf' rf' b' Hin. apply (Hall a' lf' rf' b'). right. exact Hin.
 Qed.
+
+(* both directions together: the (class, left, right) triples of the links are exactly the oriented known pairs *)
+Theorem import_links_exact nodes rels links :
+  import_links class_of first_field nodes rels = Some links ->
+  forall k, In k (map key3 links) <->
+    exists i j a lf rf b ta tb cls, i <> j /\ i < List.length rels /\ j < List.length rels /\
+      nth i rels ("", "", "")%string = (a, lf, b) /\ nth j rels ("", "", "")%string = (b, rf, a) /\
+      type_of_node nodes a = Some ta /\ type_of_node nodes b = Some tb /\ class_of lf rf ta tb = Some cls /\
+      k = oriented cls a lf b.
+Proof.
+  intros H k. split.
+  - intros Hin. apply in_map_iff in Hin. destruct Hin as [[[[[cls f1] x] f2] y] [Hk Hin]]. cbn [key3] in Hk. subst k.
+    destruct (import_links_sound nodes rels links H) as [Hs _].
+    destruct (Hs cls f1 x f2 y Hin) as (i & j & a & lf & rf & b & ta & tb & Hne & Hi & Hj & E1 & E2 & Ha & Hb & Hc & Hor).
+    exists i, j, a, lf, rf, b, ta, tb, cls. repeat split; try assumption.
+    unfold oriented. destruct Hor as [(Hff & -> & -> & _) | (Hff & -> & -> & _)]; rewrite Hff; reflexivity.
+  - intros (i & j & a & lf & rf & b & ta & tb & cls & Hne & Hi & Hj & E1 & E2 & Ha & Hb & Hc & ->).
+    eapply import_links_complete; eassumption.
+Qed.
 End Import.
